@@ -80,6 +80,12 @@ def gen_translational(kind, rng, anti, two_pairs):
     sides = [dict(bc="per1", kind="line", A=((0, 0), (0, H)), motion=("t", W, 0.0))]
     if two_pairs:
         sides.append(dict(bc="per2", kind="line", A=((0, 0), (W, 0)), motion=("t", 0.0, H)))
+        # every other cell with two pairs mixes the two kinds: the property defined FIRST (used by the left / right sides) gets the other
+        # sign than the one defined last, so each pair has to be written with the sign of its own property
+        gen_translational.calls2 = getattr(gen_translational, "calls2", 0) + 1
+        if gen_translational.calls2 % 2 == 0:
+            p.bdryprops[0]["type"] = PER[kind][0 if anti else 1]
+            sides[0]["anti"] = not anti
     return p, sides, max(W, H)
 
 
@@ -254,8 +260,8 @@ def main(argv):
                     if len(partners) > 1:
                         bad = ("duplicate", "mesh node %d on '%s' is listed %d times against its image" % (k, side["bc"], len(partners)))
                         break
-                    if any(bool(f) != anti for f in flags):
-                        bad = ("sign", "pair (%d, %d) of '%s' is flagged %s, the condition is %s" % (k, partners[0], side["bc"], flags, "antiperiodic" if anti else "periodic"))
+                    if any(bool(f) != side.get("anti", anti) for f in flags):
+                        bad = ("sign", "pair (%d, %d) of '%s' is flagged %s, the condition is %s" % (k, partners[0], side["bc"], flags, "antiperiodic" if side.get("anti", anti) else "periodic"))
                         break
                     err = math.hypot(xy[partners[0]][0] - ix, xy[partners[0]][1] - iy) / size
                     stats["worst_image_error"] = max(stats["worst_image_error"], err)
@@ -337,11 +343,12 @@ def main(argv):
             scale = max(abs(v) for v in V) or 0.0
             ck.case((tag, t, len(pbc)), nontrivial=scale > 0,
                     sample=dict(family=fam, physics=kind, antiperiodic=anti, pairs=len(pbc), nodes=len(V)) if t < 3 else None)
-            s = -1.0 if anti else 1.0
             worst, wp = 0.0, None
-            for (i, j, _) in pbc:
+            for (i, j, fl_) in pbc:
+                # (the flag of every listed pair was compared with the sign of its own property above)
+                s = -1.0 if fl_ else 1.0
                 dv = abs(V[i] - s * V[j])
-                if i == j and anti:
+                if i == j and fl_:
                     # a node opposite to itself is decoupled with a zero right-hand side (theorem antiPeriodicity_self): the iteration
                     # leaves it at exactly zero, so anything above rounding is a coupled (free) node
                     dv *= 1e6
